@@ -2,7 +2,7 @@
 # tools/benign.sh [tier] — every property-preserving control patch through ALL checks; any exit != 0 is a false alarm.
 tier="${1:-quick}"
 cd /verif
-for m in mutants/benign/*.diff; do
+for m in ${BENIGN_DIR:-mutants/benign}/*.diff; do
   out=$(tools/mutant.sh "$m" "C06 C07 C08 C09 C10 C11 C12 C16" "$tier" 2>&1)
   echo "$out" | grep -q "suite FAILS" && { echo "BENIGN $(basename $m): repo suite fails (drop it)"; continue; }
   echo "$out" | grep -q "does not apply" && { echo "BENIGN $(basename $m): does not apply"; continue; }
